@@ -263,3 +263,90 @@ def nonneg(a):
         if st != "proved":
             return st, "a summand may be negative", m
     return "proved", f"{len(A.terms)} sums of non-negative summands", None
+
+
+_WORLD = {}
+
+
+class _Small(dict):
+    def get(self, k, default=None):
+        return self[k] if k in self else 2
+
+
+def numeric_value(S, hyps=()):
+    """numeric value of a SumExpr in a small concrete world: every integer constant (extents) is 2, reals and
+    uninterpreted functions are interpreted pseudo-randomly, the sums are evaluated over their (then concrete) boxes.
+    Two sums that are provably equal under `hyps` have equal values PROVIDED the world satisfies `hyps` -- returns None if
+    it does not (or if anything cannot be evaluated).  Used only as a FILTER before sum_equal (which decides)."""
+    from .arr import t_bin, t_z3, _num
+    S = S if isinstance(S, SumExpr) else SumExpr(S)
+    env = _Small()
+    # integer constants: a small model of the hypotheses (all extents / indices <= 3) so that the world satisfies them
+    hyps = list(hyps)
+    key = tuple(h.get_id() for h in hyps)
+    if _WORLD.get("key") != key:
+        _WORLD.clear()
+        _WORLD["key"] = key
+        _WORLD["keep"] = hyps
+        sv = z3.Solver()
+        sv.set("timeout", 3000)
+        lin = [sym.abstract_mul(h) for h in hyps]
+        sv.add(*lin)
+        ints = set()
+        for h in hyps:
+            for v in sym._vars(h):
+                pass
+        seen = {}
+        stack = list(hyps)
+        while stack:
+            x = stack.pop()
+            if x.get_id() in seen:
+                continue
+            seen[x.get_id()] = x
+            if z3.is_app(x) and x.num_args() == 0 and x.sort() == z3.IntSort() and not z3.is_int_value(x):
+                ints.add(x)
+            stack.extend(x.children())
+        for c in ints:
+            sv.add(c <= 3, c >= -3)
+        if sv.check() == z3.sat:
+            m = sv.model()
+            _WORLD["ints"] = {c.decl().name(): m.eval(c, model_completion=True).as_long() for c in ints}
+        else:
+            _WORLD["ints"] = None
+    if _WORLD["ints"] is None:
+        return None
+    env.update(_WORLD["ints"])
+    saved = dict(sym._fp_cache)
+    old = sym._NUM_ENV[0]
+    try:
+        sym._fp_cache.clear()
+        sym._NUM_ENV[0] = (env, 7)
+        for h in hyps:
+            if sym._fp(h) is not True:
+                return None
+
+        def val(t):
+            if _num(t):
+                return float(t)
+            return float(sym._fp(t_z3(t, True)))
+        total = val(S.plain)
+        for t in S.terms:
+            exts = [int(sym._fp(e)) for e in t.exts]
+            if any(e > 4 for e in exts):
+                return None
+            summand = t_z3(t_bin("mul", t.coef, t.body), True)
+            names = [v.decl().name() for v in t.vars]
+            for point in itertools.product(*[range(e) for e in exts]):
+                for n_, v_ in zip(names, point):
+                    env[n_] = v_
+                sym._fp_cache.clear()
+                total += float(sym._fp(summand))
+            for n_ in names:
+                env.pop(n_, None)
+        return total
+    except Exception:
+        return None
+    finally:
+        sym._NUM_ENV[0] = old
+        sym._fp_cache.clear()
+        sym._fp_cache.update(saved)
